@@ -115,7 +115,7 @@ func resultForms(c *Ctx, rule, fnName string, patterns ...string) int {
 	p, r := c.Prog, c.R
 	fn := p.Func(fnName)
 	if fn == nil {
-		r.Fatalf("anchor %s missing", fnName)
+		missingAnchor(r, fnName)
 		return 0
 	}
 	m := bits.Run(p, fn)
@@ -153,7 +153,7 @@ func storeForms(c *Ctx, rule, fnName string, groups [][2]string) int {
 	p, r := c.Prog, c.R
 	fn := p.Func(fnName)
 	if fn == nil {
-		r.Fatalf("anchor %s missing", fnName)
+		missingAnchor(r, fnName)
 		return 0
 	}
 	m := bits.Run(p, fn)
